@@ -26,16 +26,19 @@ def is_err(o):
 
 
 def same_or_flat_equal(mt, it):
-    """None if the trees agree structurally, or agree on shape of the root + timeline (sequence
-    nesting is transparent); a description otherwise."""
+    """None if the trees agree structurally; a description otherwise."""
     if mt == it:
         return None
     a, b = sp.norm(mt), sp.norm(it)
+    if a == b:
+        return None
     if sp.shape(a) != sp.shape(b):
         return f"root differs: model {sp.shape(a)} impl {sp.shape(b)}"
     if sp.flat(a) != sp.flat(b):
         return "timeline differs"
-    return None
+    # same timeline, other nesting / tags / tempi / empty containers: the model is one-to-one with the code, so this is
+    # a disagreement too (the properties speak about every level of nesting, about tags and tempi of parts)
+    return f"structure differs below the root (nesting, tags, tempi or empty containers): model {sx.show(a)[:160]} impl {sx.show(b)[:160]}"
 
 
 def compare_result(mo, io):
@@ -47,6 +50,9 @@ def compare_result(mo, io):
     if mo[0] != io[0]:
         return "observation kind differs"
     for x in io[2:]:
+        if isinstance(x, list) and x and x[0] == "result-is-not-the-receiver":
+            return ("the editing method returned another object than its receiver; the receiver now reads "
+                    f"{sx.show(x[1])[:200]} (the model's result is what the receiver has to be afterwards)")
         if isinstance(x, list) and x and x[0] == "aliased-with-receiver":
             return (f"the returned event shares {x[1]} mutable object(s) (events / durations) with the receiver: the model's result is "
                     "a new value; an in-place edit of either would change the other")
@@ -69,6 +75,8 @@ def alias_failure(io):
     if not isinstance(io, list):
         return None
     for x in io[2:]:
+        if isinstance(x, list) and x and x[0] == "result-is-not-the-receiver":
+            return f"the editing method returned another object than its receiver, which now reads {sx.show(x[1])[:200]}"
         if isinstance(x, list) and x and x[0] == "aliased-with-receiver":
             if x[2] == "result-changes-when-receiver-is-edited":
                 return (f"the returned event shares {x[1]} object(s) with the receiver: after doubling the receiver's leaves in place "
